@@ -148,7 +148,7 @@ type chainLevel struct {
 func (r *Run) genForwChain(depth int, m dhcpv6.DHCPv6, w []byte) (dhcpv6.DHCPv6, []byte, []chainLevel) {
 	var lvs []chainLevel
 	for i := 0; i < depth; i++ {
-		lv := chainLevel{link: r.Bytes(16), peer: r.Bytes(16), t: 12}
+		lv := chainLevel{link: r.Addr16(), peer: r.Addr16(), t: 12}
 		rm := &dhcpv6.RelayMessage{MessageType: 12, HopCount: byte(i), LinkAddr: net.IP(lv.link), PeerAddr: net.IP(lv.peer)}
 		var ow []byte
 		order := r.Rng.Intn(2)
@@ -201,8 +201,8 @@ func genC16(r *Run) {
 		r.Add(eV6Inner, cw)
 		r.Add(eV6Decap, cw)
 		r.Add(eV6DecapIndex, cw, []byte{byte(10 + r.Pick(-2, -1, 0, 1, depth-1, depth, depth+1))})
-		r.Add(eV6Encap, cw, []byte{byte(r.Pick(12, 13, 1, 7))}, r.Bytes(16), r.Bytes(16))
-		r.Add(eV6Encap, iw, []byte{12}, r.Bytes(16), r.Bytes(16))
+		r.Add(eV6Encap, cw, []byte{byte(r.Pick(12, 13, 1, 7))}, r.Addr16(), r.Addr16())
+		r.Add(eV6Encap, iw, []byte{12}, r.Addr16(), r.Addr16())
 		reply, rw := r.genInner(7)
 		r.Add(eV6RelayRepl, cw, rw)
 		r.Add(eV6Advertise, iw)
@@ -212,7 +212,7 @@ func genC16(r *Run) {
 		evals++
 		cs := Case{eV6Inner, [][]byte{cw}}.Line()
 		// (1) encapsulate / decapsulate identity and hop count
-		enc, err := dhcpv6.EncapsulateRelay(chain, dhcpv6.MessageTypeRelayForward, net.IP(r.Bytes(16)), net.IP(r.Bytes(16)))
+		enc, err := dhcpv6.EncapsulateRelay(chain, dhcpv6.MessageTypeRelayForward, net.IP(r.Addr16()), net.IP(r.Addr16()))
 		if err != nil {
 			r.Fail("encapsulate-error", trunc(cs, 2000), err.Error())
 		} else {
